@@ -2,11 +2,16 @@
 C20 — NodePool registration health reflects the recent launch window.
 
 Property theorems only (helper lemmas live in `Karp/Proofs/RingLemmas.lean`).
-Model: `Karp/Model/Ring.lean` (ring buffer, tracker, what-if, condition update).
-Spec:  `Karp/Spec/Window.lean` (log of outcomes since the last reset; last 4 entries).
+Model: `Karp/Model/Ring.lean` (ring buffer, tracker, what-if, condition update),
+       `Karp/Model/PoolHealth.lean` (the registrationhealth controller and the two lifecycle call sites
+       acting on one NodePool: hydration, reset guard, generations).
+Spec:  `Karp/Spec/Window.lean` (log of outcomes since the last reset; last 4 entries),
+       `Karp/Spec/PoolHealth.lean` (the condition an operator reads along the pool's life).
 -/
 import Karp.Proofs.RingLemmas
 import Karp.Spec.HealthHistory
+import Karp.Model.PoolHealth
+import Karp.Spec.PoolHealth
 
 namespace Karp.C20
 open Karp.Ring Karp.Spec.Window Karp.Spec.HealthHistory
@@ -181,5 +186,240 @@ example : Refines witnessTracker (specRun [] [.update false, .update false, .upd
 example : witnessTracker.head = 1 ∧ witnessTracker.values = [true, false, true, true] := by decide
 example : observations Tracker.new [.update false, .update false, .dry true, .update true, .update true, .update true, .dry false, .reset]
     = [.healthy, .unhealthy, .unhealthy, .unhealthy, .unhealthy, .healthy, .healthy, .unknown] := by decide
+
+/-! ## The controllers: one NodePool's life (registrations, timeouts, edits, restarts, resyncs)
+
+`Karp.PoolHealth` models `registrationhealth.Controller.Reconcile` and the two
+`updateNodePoolRegistrationHealth` call sites on one pool; `Karp.Spec.PoolHealth` is the operator-level
+specification (log since the last reset + condition).  The theorems below are the refinement over
+ALL event sequences. -/
+
+open Karp.PoolHealth
+
+abbrev SP := Karp.Spec.PoolHealth.S
+abbrev SC := Karp.Spec.PoolHealth.C
+
+def condSpec : Cond → SC
+  | .unknown => .unknown
+  | .true_ => .true_
+  | .false_ => .false_
+
+theorem healthCode_toStatus (h : Health) : Karp.Spec.PoolHealth.healthCode h = (toStatus h).toNat := by
+  cases h <;> rfl
+
+theorem specHealth_eq (log : List Bool) : specHealth log = toStatus (Karp.Spec.PoolHealth.healthOf log) := rfl
+
+/-- the window of a log is empty only for the empty log -/
+theorem specHealth_unknown_iff (log : List Bool) : specHealth log = .unknown ↔ log = [] := by
+  unfold specHealth health
+  constructor
+  · intro h
+    by_cases hw : lastN bufferSize log = []
+    · have := congrArg List.length hw
+      rw [lastN_length] at this
+      have hb : 0 < bufferSize := bufferSize_pos
+      simp at this
+      rcases this with h0 | h0
+      · omega
+      · exact h0
+    · simp only [hw, if_false] at h
+      split at h <;> simp [toStatus] at h
+  · intro h; subst h; simp [lastN, toStatus]
+
+theorem status_unknown_iff (t : Tracker) (log : List Bool) (h : Refines t log) :
+    t.status = .unknown ↔ log = [] := by
+  rw [C20_status t log h]; exact specHealth_unknown_iff log
+
+
+/-- the refinement invariant between the controllers' view of a pool and the operator-level spec -/
+structure PoolRefines (p : Pool) (s : SP) : Prop where
+  tr : Refines p.t s.log
+  present : p.present = true
+  cond : condSpec p.cond = s.cond
+  condGen : p.condGen = p.gen
+  classObs : p.classObs = p.classGen
+  nonempty : s.cond ≠ .unknown → s.log ≠ []
+
+theorem dry_status (t : Tracker) (log : List Bool) (ok : Bool) (h : Refines t log) :
+    (t.dryRun ok).status = specHealth (log ++ [ok]) := by
+  rw [C20_dryrun_agrees]; exact C20_status _ _ (refines_insert t log ok h)
+
+theorem hydrate_idle (p : Pool) (s : SP) (h : PoolRefines p s) : hydrate p = p.t := by
+  unfold hydrate
+  by_cases hs : p.t.status = .unknown
+  · have hl : s.log = [] := (status_unknown_iff _ _ h.tr).mp hs
+    have hc : s.cond = .unknown := by
+      by_cases hc : s.cond = .unknown
+      · exact hc
+      · exact absurd hl (h.nonempty hc)
+    have hpc : p.cond = .unknown := by
+      have := h.cond; rw [hc] at this
+      cases hp : p.cond <;> simp [hp, condSpec] at this ⊢
+    simp [hs, hpc]
+  · simp [hs]
+
+theorem hydrate_refines (p : Pool) (log : List Bool) (h : Refines p.t log) : ∃ log', Refines (hydrate p) log' := by
+  unfold hydrate
+  split
+  · split
+    · exact ⟨_, refines_step p.t log (.set .healthy) h⟩
+    · split
+      · exact ⟨_, refines_step p.t log (.set .unhealthy) h⟩
+      · exact ⟨_, h⟩
+  · exact ⟨_, h⟩
+
+theorem needsReset_idle (p : Pool) (s : SP) (h : PoolRefines p s) : needsReset p = false := by
+  simp [needsReset, h.present, h.condGen, h.classObs]
+
+/-- an idle reconcile changes nothing -/
+theorem reconcile_idle (p : Pool) (s : SP) (h : PoolRefines p s) : reconcile p = p := by
+  unfold reconcile
+  simp only [needsReset_idle p s h, hydrate_idle p s h]
+  have := h.classObs
+  cases p
+  simp_all
+
+theorem reconcile_reset (p : Pool) (log : List Bool) (h : Refines p.t log) (hr : needsReset p = true) :
+    PoolRefines (reconcile p) { cond := .unknown, log := [] } := by
+  unfold reconcile
+  simp only [hr, if_true]
+  obtain ⟨log', hl⟩ := hydrate_refines p log h
+  exact ⟨refines_reset _ _ hl, rfl, rfl, rfl, rfl, by simp⟩
+
+
+theorem tracker_new_unknown : Tracker.new.status = .unknown := by decide
+
+theorem started_refines : PoolRefines Pool.started Karp.Spec.PoolHealth.S.init :=
+  reconcile_reset Pool.created [] refines_new (by decide)
+
+/-! ### One event -/
+
+/-- **C20_pool_step** — every event keeps the controllers' view and the operator-level specification
+    in step. -/
+theorem C20_pool_step (p : Pool) (s : SP) (e : Ev) (h : PoolRefines p s) :
+    PoolRefines (Karp.PoolHealth.step p e) (Karp.Spec.PoolHealth.step s e) := by
+  cases e with
+  | lateFailure =>
+    have hd := dry_status p.t s.log false h.tr
+    simp only [Karp.PoolHealth.step, Karp.Spec.PoolHealth.step, Karp.Spec.PoolHealth.recordFailure, timedOut,
+      recordFailure, hd, specHealth_eq]
+    refine ⟨refines_insert _ _ _ h.tr, by simp [h.present], ?_, ?_, h.classObs, by simp⟩
+    · have hc := h.cond
+      cases hh : Karp.Spec.PoolHealth.healthOf (s.log ++ [false]) <;> simp [toStatus, h.cond]
+      by_cases hf : p.cond = Cond.false_
+      · rw [hf] at hc; simp [hf, condSpec] at hc ⊢
+      · simp [hf, condSpec]
+    · cases hh : Karp.Spec.PoolHealth.healthOf (s.log ++ [false]) <;> simp [toStatus, h.condGen]
+  | noise => exact h
+  | resync => simpa [Karp.PoolHealth.step, Karp.Spec.PoolHealth.step, reconcile_idle p s h] using h
+  | poolEdit =>
+    exact reconcile_reset _ s.log h.tr (by simp [needsReset, h.condGen])
+  | classEdit =>
+    exact reconcile_reset _ s.log h.tr (by simp [needsReset, h.classObs])
+  | restart =>
+    have hn : needsReset { p with t := Tracker.new } = false := by
+      simp [needsReset, h.present, h.condGen, h.classObs]
+    simp only [Karp.PoolHealth.step, Karp.Spec.PoolHealth.step, reconcile, hn]
+    have hc := h.cond
+    refine ⟨?_, h.present, h.cond, h.condGen, rfl, ?_⟩
+    · simp only [hydrate, tracker_new_unknown, h.present, if_true, true_and]
+      cases hp : p.cond <;> rw [hp] at hc <;> simp only [condSpec] at hc <;> rw [← hc]
+      · simpa using refines_new
+      · exact refines_step Tracker.new [] (.set .healthy) refines_new
+      · exact refines_step Tracker.new [] (.set .unhealthy) refines_new
+    · intro hne
+      cases hs : s.cond <;> simp_all
+      decide
+  | success =>
+    have hd := dry_status p.t s.log true h.tr
+    simp only [Karp.PoolHealth.step, Karp.Spec.PoolHealth.step, registered, recordSuccess, hd, specHealth_eq]
+    refine ⟨refines_insert _ _ _ h.tr, by simp [h.present], ?_, ?_, h.classObs, by simp⟩
+    · have hc := h.cond
+      cases hh : Karp.Spec.PoolHealth.healthOf (s.log ++ [true]) <;> simp [toStatus, hc] <;> rfl
+    · cases hh : Karp.Spec.PoolHealth.healthOf (s.log ++ [true]) <;> simp [toStatus, h.condGen]
+  | failure =>
+    have hd := dry_status p.t s.log false h.tr
+    simp only [Karp.PoolHealth.step, Karp.Spec.PoolHealth.step, Karp.Spec.PoolHealth.recordFailure, timedOut,
+      recordFailure, hd, specHealth_eq]
+    refine ⟨refines_insert _ _ _ h.tr, by simp [h.present], ?_, ?_, h.classObs, by simp⟩
+    · have hc := h.cond
+      cases hh : Karp.Spec.PoolHealth.healthOf (s.log ++ [false]) <;> simp [toStatus, h.cond]
+      by_cases hf : p.cond = Cond.false_
+      · rw [hf] at hc; simp [hf, condSpec] at hc ⊢
+      · simp [hf, condSpec]
+    · cases hh : Karp.Spec.PoolHealth.healthOf (s.log ++ [false]) <;> simp [toStatus, h.condGen]
+
+theorem pool_observe_eq (p : Pool) (s : SP) (h : PoolRefines p s) :
+    Karp.PoolHealth.observe p = Karp.Spec.PoolHealth.observe s := by
+  have hc := h.cond
+  simp only [Karp.PoolHealth.observe, Karp.Spec.PoolHealth.observe, condCode, h.present,
+    C20_status _ _ h.tr, dry_status _ _ _ h.tr, specHealth_eq, healthCode_toStatus]
+  congr 1
+  cases hp : p.cond <;> rw [hp] at hc <;> simp only [condSpec] at hc <;> rw [← hc] <;> rfl
+
+/-! ### All event sequences -/
+
+/-- **C20_pool_observations** (refinement, all event sequences of any length): the persisted condition,
+    the tracker status and both what-if verdicts observed after every event equal what the
+    operator-level specification prescribes. -/
+theorem C20_pool_observations (es : List Ev) :
+    ∀ (p : Pool) (s : SP), PoolRefines p s →
+      Karp.PoolHealth.observations p es = Karp.Spec.PoolHealth.observations s es := by
+  induction es with
+  | nil => intro p s _; rfl
+  | cons e es ih =>
+    intro p s h
+    have hstep := C20_pool_step p s e h
+    simp only [Karp.PoolHealth.observations, Karp.Spec.PoolHealth.observations]
+    rw [ih _ _ hstep, pool_observe_eq _ _ hstep]
+
+theorem C20_pool_observations_from_start (es : List Ev) :
+    Karp.PoolHealth.observations Pool.started es = Karp.Spec.PoolHealth.observations .init es :=
+  C20_pool_observations es _ _ started_refines
+
+theorem C20_pool_run (es : List Ev) :
+    ∀ (p : Pool) (s : SP), PoolRefines p s →
+      PoolRefines (Karp.PoolHealth.run p es) (Karp.Spec.PoolHealth.run s es) := by
+  induction es with
+  | nil => intro p s h; exact h
+  | cons e es ih => intro p s h; exact ih _ _ (C20_pool_step p s e h)
+
+theorem spec_run_edit (es : List Ev) (e : Ev) (he : e = .poolEdit ∨ e = .classEdit) :
+    ∀ s0 : SP, Karp.Spec.PoolHealth.run s0 (es ++ [e]) = { cond := .unknown, log := [] } := by
+  induction es with
+  | nil => intro s0; rcases he with he | he <;> subst he <;> rfl
+  | cons x xs ih => intro s0; exact ih _
+
+/-- **C20_pool_edit_forgets** — whatever happened before (any events, in particular outcomes recorded
+    while the condition was still Unknown), after a NodePool or NodeClass edit the window is empty and
+    the condition Unknown. -/
+theorem C20_pool_edit_forgets (es : List Ev) (e : Ev) (he : e = .poolEdit ∨ e = .classEdit) :
+    let p := Karp.PoolHealth.run Pool.started (es ++ [e])
+    p.t.status = .unknown ∧ condCode p = 0 := by
+  intro p
+  have h : PoolRefines p (Karp.Spec.PoolHealth.run .init (es ++ [e])) := C20_pool_run _ _ _ started_refines
+  rw [spec_run_edit _ e he] at h
+  refine ⟨(status_unknown_iff _ _ h.tr).mpr rfl, ?_⟩
+  have hc := h.cond
+  simp only [condCode, h.present]
+  cases hp : p.cond <;> rw [hp] at hc <;> simp [condSpec] at hc ⊢
+
+/-- **C20_pool_outcome_enters_window** — a success or a failure is recorded whatever the condition says
+    (in particular a success while it is already True): the window afterwards is the old log plus that
+    outcome. -/
+theorem C20_pool_outcome_enters_window (p : Pool) (s : SP) (h : PoolRefines p s) :
+    Refines (Karp.PoolHealth.step p .success).t (s.log ++ [true]) ∧
+    Refines (Karp.PoolHealth.step p .failure).t (s.log ++ [false]) :=
+  ⟨(C20_pool_step p s .success h).tr, (C20_pool_step p s .failure h).tr⟩
+
+/-! non-vacuity: concrete scripts through every branch -/
+example : Karp.PoolHealth.observations Pool.started [.success, .failure, .success, .success, .success, .failure]
+    = [[1,1,1,1],[1,1,1,2],[1,1,1,2],[1,1,1,2],[1,1,1,1],[1,1,1,2]] := by decide
+example : Karp.PoolHealth.observations Pool.started [.failure, .classEdit, .failure, .failure, .restart, .success, .poolEdit]
+    = [[0,1,1,2],[0,0,1,1],[0,1,1,2],[2,2,2,2],[2,2,2,2],[2,2,2,2],[0,0,1,1]] := by decide
+example : Karp.PoolHealth.observe Pool.created = [3,0,1,1] := by decide
+/-- the repaired defect (fix: Liveness.Reconcile returns after its launch-timeout branch): one late launch
+    failure is one failure -/
+example : Karp.PoolHealth.observations Pool.started [.lateFailure] = [[0, 1, 1, 2]] := by decide
 
 end Karp.C20
